@@ -69,9 +69,9 @@ theorem wt_declTys (vtys : List CSem.Ty) (ret : CSem.Ty) (cnts : List Nat) (st :
   | ite e a iha =>
     intro lb lc nd nd' h ha hd k t n hk
     simp only [Stmt.wt] at h
-    simp only [arrsOK, declsOK] at ha hd
+    simp only [arrsOK, declsOK, Bool.and_eq_true] at ha hd
     split at h
-    · exact iha lb lc nd nd' h ha hd k t n hk
+    · exact iha lb lc nd nd' h ha.2 hd k t n hk
     · cases h
   | itee e a b iha ihb =>
     intro lb lc nd nd' h ha hd k t n hk
@@ -84,7 +84,7 @@ theorem wt_declTys (vtys : List CSem.Ty) (ret : CSem.Ty) (cnts : List Nat) (st :
       simp only [declTys] at hk
       by_cases hka : k < (declTys a).length
       · rw [List.getElem?_append_left hka] at hk
-        exact iha lb lc nd n1 h1 ha.1 hd.1 k t n hk
+        exact iha lb lc nd n1 h1 ha.1.2 hd.1 k t n hk
       · rw [List.getElem?_append_right (by omega)] at hk
         have := ihb lb lc n1 nd' h2 ha.2 hd.2 _ t n hk
         rw [hc] at this
@@ -94,23 +94,27 @@ theorem wt_declTys (vtys : List CSem.Ty) (ret : CSem.Ty) (cnts : List Nat) (st :
   | while_ e b ihb =>
     intro lb lc nd nd' h ha hd k t n hk
     simp only [Stmt.wt] at h
-    simp only [arrsOK, declsOK] at ha hd
+    simp only [arrsOK, declsOK, Bool.and_eq_true] at ha hd
     split at h
-    · exact ihb true true nd nd' h ha hd k t n hk
+    · exact ihb true true nd nd' h ha.2 hd k t n hk
     · cases h
   | dowhile b e ihb =>
     intro lb lc nd nd' h ha hd k t n hk
     simp only [Stmt.wt] at h
-    simp only [arrsOK, declsOK] at ha hd
+    simp only [arrsOK, declsOK, Bool.and_eq_true] at ha hd
     split at h
     · simp only [Option.bind_eq_some_iff] at h
       obtain ⟨n1, h1, h2⟩ := h
-      exact ihb true true nd n1 h1 ha hd k t n hk
+      exact ihb true true nd n1 h1 ha.2 hd k t n hk
     · cases h
   | for_ e step b ihs ihb =>
     intro lb lc nd nd' h ha hd k t n hk
     simp only [Stmt.wt] at h
-    simp only [arrsOK, declsOK, Bool.and_eq_true] at ha hd
+    have ha : arrsOK cnts step = true ∧ arrsOK cnts b = true := by
+      cases e <;> simp only [arrsOK, Bool.and_eq_true] at ha
+      · exact ha
+      · exact ⟨ha.1.2, ha.2⟩
+    simp only [declsOK, Bool.and_eq_true] at hd
     split at h
     · rename_i hc
       simp only [Option.bind_eq_some_iff, Option.some.injEq] at h
@@ -135,9 +139,9 @@ theorem wt_declTys (vtys : List CSem.Ty) (ret : CSem.Ty) (cnts : List Nat) (st :
   | switch_ e b ihb =>
     intro lb lc nd nd' h ha hd k t n hk
     simp only [Stmt.wt] at h
-    simp only [arrsOK, declsOK] at ha hd
+    simp only [arrsOK, declsOK, Bool.and_eq_true] at ha hd
     split at h
-    · exact ihb true lc nd nd' h ha hd k t n hk
+    · exact ihb true lc nd nd' h ha.2 hd k t n hk
     · cases h
 
 /-! ## Small facts about lists -/
